@@ -191,7 +191,15 @@ pub fn type_args(p: &Program, t: &cairo_lang_sierra::ids::ConcreteTypeId, small:
             }
             let pick = |i: usize| e[i % e.len()].clone();
             let mk = |els: Vec<Vec<Arg>>| vec![Arg::Array(els.into_iter().flatten().collect())];
-            Some(vec![mk(vec![]), mk(vec![pick(1)]), mk(vec![pick(0), pick(e.len() - 1), pick(2)])])
+            // empty, one element, three different elements, and two longer arrays (six times the first value;
+            // six values cycling through the domain) so per-iteration effects accumulate
+            Some(vec![
+                mk(vec![]),
+                mk(vec![pick(1)]),
+                mk(vec![pick(0), pick(e.len() - 1), pick(2)]),
+                mk((0..6).map(|_| pick(0)).collect()),
+                mk((0..6).map(pick).collect()),
+            ])
         }
         _ => None,
     }
@@ -253,8 +261,9 @@ fn builtin_price(name: &str) -> Option<i64> {
         "ec_op" => token_gas_cost(CostTokenType::EcOp) as i64,
         "add_mod" => token_gas_cost(CostTokenType::AddMod) as i64,
         "mul_mod" => token_gas_cost(CostTokenType::MulMod) as i64,
-        // not in the property's formula: range_check96 / segment_arena / output carry no gas price
-        "range_check96" | "segment_arena" | "output" => 0,
+        // ConstCost::cost() prices a 96-bit range check at 56 ("priced by the same table")
+        "range_check96" => 56,
+        "segment_arena" | "output" => 0,
         _ => return None,
     })
 }
@@ -314,7 +323,13 @@ pub fn run_monitored(
                 let prog_len: usize = info.last().map(|s| s.end_offset).unwrap_or(0);
                 let in_prog = |pc: usize| pc >= load && pc < load + prog_len;
                 if mon.gas {
-                    let steps = tr.iter().filter(|e| in_prog(e.pc)).count() as i64;
+                    // steps of the function = the whole trace minus the entry-code header before it and the footer
+                    // after it (exactly how the runner computes n_steps); code the compiler appends after the last
+                    // statement (e.g. shared circuit routines) is executed on the program's behalf and counts
+                    let lead = tr.iter().position(|e| e.pc > header_end).unwrap_or(tr.len());
+                    let trail = tr.iter().rev().position(|e| e.pc > header_end).unwrap_or(0);
+                    let steps = (tr.len() - lead - trail) as i64;
+                    ctx.count("steps_outside_statement_ranges", steps - tr.iter().filter(|e| in_prog(e.pc)).count() as i64);
                     let mut cost = 100 * steps;
                     for (b, n) in full.used_resources.basic_resources.builtin_instance_counter.iter() {
                         let nm = format!("{b:?}");
@@ -328,6 +343,9 @@ pub fn run_monitored(
                         None => c.runner.initial_required_gas(f).unwrap_or(0) as i64,
                     };
                     let slack = charged + 100 - cost;
+                    if std::env::var("VERIF_DEBUG_GAS").is_ok() {
+                        eprintln!("GAS {} steps {steps} cost {cost} charged {charged} slack {slack}", case());
+                    }
                     ctx.min("gas_slack_min", slack);
                     ctx.count("gas_checks", 1);
                     if slack == 0 {
